@@ -58,7 +58,7 @@ LEAN_MODULES = ["PorepyVerif.C07.Props"]
 LEAN_DIRS = ["C37"]  # Model imports C37.Model (Gauss-Jordan), Lemmas import C37.Lemmas (its correctness proof)
 AUDIT = "PorepyVerif/C07/Audit.lean"
 DRIVER = "PorepyVerif/C07/Driver.lean"
-N = {"quick": 50, "thorough": 800}
+N = {"quick": 40, "thorough": 800}
 RULE = ("md-grids with 1-3 subdomains (dim 0-2, 1-3 cells, instantiated in random order) and 0-2 mortar grids; 2-4 cell variables on "
         "random sub-lists of the subdomains (+0-2 on interfaces); per variable 1-2 equations (its grids split in groups) with a dominant "
         "cell-wise diagonal term, cell-wise linear and bilinear couplings to co-located variables (local: the secondary block is a permuted "
